@@ -237,7 +237,28 @@ func (fc *FuncCtx) runHints(st *State, s ast.Stmt, when string) {
 			fc.ghostAssign(st, h, sc)
 			continue
 		}
+		if h.Clause.Free {
+			fc.noOblig++
+			g := fc.evalSpecBool(st, h.Clause.Expr, sc)
+			fc.noOblig--
+			fc.note("free (assumed) assertion: " + h.Clause.Text)
+			st.assume(g)
+			continue
+		}
 		g := fc.evalSpecBool(st, h.Clause.Expr, sc)
+		if h.CaseVar != "" {
+			// proof by cases on a bounded integer: the variable is in range, and the assertion holds for each value
+			cv, ok := fc.lookupSpecName(st, h.CaseVar, sc)
+			if !ok || cv.T == nil || cv.T.Sort.Kind != "Int" {
+				panic(engineError{"assert cases: unknown integer variable " + h.CaseVar})
+			}
+			fc.emit(st, "assert", "case split covers `"+h.CaseVar+"`", And(Le(IntLit(h.CaseLo), cv.T), Le(cv.T, IntLit(h.CaseHi))), s.Pos(), fmt.Sprintf("%d <= %s <= %d", h.CaseLo, h.CaseVar, h.CaseHi))
+			for c := h.CaseLo; c <= h.CaseHi; c++ {
+				fc.emit(st, "assert", fmt.Sprintf("intermediate assertion %s `%s` (case %s = %d)", when, h.Anchor, h.CaseVar, c), Implies(Eq(cv.T, IntLit(c)), g), s.Pos(), h.Clause.Text)
+			}
+			st.assume(g)
+			continue
+		}
 		fc.emit(st, "assert", "intermediate assertion "+when+" `"+h.Anchor+"`", g, s.Pos(), h.Clause.Text)
 		st.assume(g)
 	}
@@ -621,6 +642,20 @@ func (fc *FuncCtx) execSwitch(st *State, x *ast.SwitchStmt) flow {
 // ---------------------------------------------------------------- return / postconditions
 
 func (fc *FuncCtx) execReturn(st *State, x *ast.ReturnStmt) {
+	if n := len(fc.inlineStack); n > 0 {
+		// return from a function literal executed in place: record the state and the values
+		fr := fc.inlineStack[n-1]
+		var vals []Val
+		if len(x.Results) == 1 && fr.sig.Results().Len() > 1 {
+			vals = fc.evalExpr(st, x.Results[0]).Tuple
+		} else {
+			for _, r := range x.Results {
+				vals = append(vals, fc.evalExpr(st, r))
+			}
+		}
+		fr.rets = append(fr.rets, inlineRet{st, vals})
+		return
+	}
 	res := fc.sig.Results()
 	var vals []Val
 	if len(x.Results) == 0 {
